@@ -571,6 +571,15 @@ Definition p_drop (amts : list amount) (a : arr) : res arr :=
 Definition p_rotate (fill : option elem) (amts : list amount) (a : arr) : res arr :=
   if box_fill fill (aty a) then Unspec else
   match ash a with [] => Unspec | _ =>
+  if Nat.ltb (length (ash a)) (length amts) then
+    (* more amounts than axes: an error, except that an array in which nothing is left to rotate
+       is returned unchanged.  The exception is not in the doc comment; its source is the
+       repository's own tests (tests/dyadic.ua:72-73: `↻0_1[]` and `↻1_1[]` are `[]`), i.e.
+       intended behaviour (an earlier version of this reference claimed an error: false alarm,
+       rotate half of C08-F8). *)
+    if existsb (fun m => match m with AInt _ => false | _ => true end) amts then Err
+    else if Nat.eqb (prodn (ash a)) 0 then Ok a else Err
+  else
   _ <- axes_check rot_ok amts (ash a) ;;
   let f := fill_for fill (aty a) in
   let fe := match f with Some e => e | None => zero_elem end in
